@@ -402,3 +402,6 @@ func recoverTo(f func()) (pv interface{}, panicked bool) {
 	f()
 	return nil, false
 }
+
+func timeNow() time.Time                  { return time.Now() }
+func timeSince(t time.Time) float64       { return time.Since(t).Seconds() }
